@@ -205,6 +205,35 @@ fn deliver<B: Backend>(start: Compiler<B, CompilerMissingParams>, files: &[std::
     }
 }
 
+/// A random builder chain over `n` sources in ascending order (literals, single paths, lists of 1..3 paths; the output mode
+/// set before, between or after them in two of three chains).
+pub fn random_plan(rng: &mut crate::core::Rng, n: usize) -> Vec<Step> {
+    let mut plan = vec![];
+    let mut i = 0;
+    while i < n {
+        match rng.below(4) {
+            0 => {
+                plan.push(Step::Literal(i));
+                i += 1;
+            }
+            1 => {
+                plan.push(Step::Path(i));
+                i += 1;
+            }
+            _ => {
+                let k = 1 + rng.below(3).min(n - i - 1);
+                plan.push(Step::Paths((i..i + k).collect()));
+                i += k;
+            }
+        }
+    }
+    if rng.chance(2, 3) {
+        let at = rng.below(plan.len() + 1);
+        plan.insert(at, Step::SetOutput);
+    }
+    plan
+}
+
 /// Compile `srcs` handed over by the builder chain `plan` (every source index must occur exactly once, in ascending order, so
 /// that the order of sources equals that of `rasn(srcs)`); `ts` selects the TypeScript backend.
 pub fn delivered(srcs: &[String], cfg: &Cfg, plan: &[Step], ts: bool) -> Run {
